@@ -8,7 +8,10 @@ fn collect(dir: &Path, out: &mut Vec<PathBuf>) {
     }
 }
 fn main() {
-    let root = Path::new("/repo/src");
+    // XSG_REPO lets the framework's own self-tests point the tool at a scratch copy; the registered checks always use /repo
+    let repo = std::env::var("XSG_REPO").unwrap_or_else(|_| "/repo".to_string());
+    let srcdir = format!("{}/src", repo);
+    let root = Path::new(&srcdir);
     let mut files = vec![];
     collect(root, &mut files);
     files.sort();
@@ -21,6 +24,7 @@ fn main() {
         feed(&[0]);
     }
     println!("cargo:rustc-env=XSG_SRC_HASH={:016x}", h);
-    println!("cargo:rerun-if-changed=/repo/src");
-    println!("cargo:rerun-if-changed=/repo/Cargo.toml");
+    println!("cargo:rerun-if-changed={}/src", repo);
+    println!("cargo:rerun-if-changed={}/Cargo.toml", repo);
+    println!("cargo:rerun-if-env-changed=XSG_REPO");
 }
